@@ -341,14 +341,40 @@ def _fn_groups(tokens):
     return out
 
 
-def decl_rule(syn, prop, rule="C07.R2"):
+def decl_rule(syn, prop, rule="C07.R2", crate=None):
     r = Result(rule, "decl_concrete() is `type N = <Self as TS>::inline()`; decl() instantiates the item at the placeholder types (never through Self) and renders its generic header inside the scope of those placeholders")
     fn = syn.fn("DerivedTS::generate_decl_fn", "macros/src/lib.rs")
     if fn is None:
         r.fail(prop, "anchor-missing generate_decl_fn", "not found")
         return r
     done = False
-    for e in templates(fn):
+    evs = list(templates(fn))
+    if crate is not None and not any("decl" in _fn_groups(e["tokens"]) and "decl_concrete" in _fn_groups(e["tokens"]) for e in evs):
+        # the template was assembled from parts: read it from the MIR, parts spliced in, and call the interpolated values by
+        # what they are (the result of generate_generic_types / format_generics, the item's identifier)
+        from vlib import quotelib as Q2, mirlib as M2
+        ib = crate.ibody("DerivedTS::generate_decl_fn")
+        if ib is not None:
+            tpls = Q2.templates(ib)
+
+            def canon(nm, loc, ty):
+                if loc is None:
+                    return None
+                org = M2.origins(ib, loc, stop=[r"generate_generic_types$", r"utils::format_generics$"])
+                if any(o["kind"] == "call" and M2.fn_matches(o["t"], r"generate_generic_types$") for o in org):
+                    return "generic_types"
+                if any(o["kind"] == "call" and M2.fn_matches(o["t"], r"utils::format_generics$") for o in org):
+                    return "ts_generics"
+                if "syn::Ident" in (ty or "") and all(o["kind"] == "arg" for o in org) and org:
+                    return "rust_ty"
+                return None
+            for t in tpls:
+                if re.search(r"generate_generic_types$", ib.blocks[t.block].get("inl") or ""):
+                    continue        # the placeholder types have a decl() of their own; they are examined below
+                ex = Q2.expanded(ib, t, tpls, rename=canon)
+                if "decl" in _fn_groups(ex) and "decl_concrete" in _fn_groups(ex):
+                    evs.append({"tokens": ex, "line": t.line, "ctx": [], "seq": 0})
+    for e in evs:
         g = _fn_groups(e["tokens"])
         if "decl" not in g or "decl_concrete" not in g:
             continue
@@ -435,7 +461,7 @@ def impl_header_rule(syn, prop, rule="C16.R7"):
     return r
 
 
-def generics_rule(syn, prop, rule="C07.R1"):
+def generics_rule(syn, prop, rule="C07.R1", crate=None):
     r = Result(rule, "all emitters of the item's type parameters iterate the parameter list in source order; the list/visit emitters drop `concrete` parameters (contains_key filter) and the instantiating emitters replace them by the concrete type (get → None/Some arms); concrete maps of several #[ts] attributes are unioned")
     droppers = [("DerivedTS::name_with_generics", "macros/src/lib.rs"), ("DerivedTS::generate_generic_types", "macros/src/lib.rs"),
                 ("DerivedTS::generate_generics_fn", "macros/src/lib.rs"), ("utils::format_generics", "macros/src/utils.rs")]
@@ -498,6 +524,30 @@ def generics_rule(syn, prop, rule="C07.R1"):
                         r.fail(prop, "generic-erasure-conditional %s" % qual,
                                "%s does not replace every non-concrete type parameter by Dummy (None arms: %s): `WithoutGenerics` then keeps an argument, and the imports of the type's file depend on which instantiation is exported first" %
                                (qual, [(S.squash(a["pat"]), a.get("guard")) for a in nones]), fn["file"], m["line"])
+        if not ok and crate is not None:
+            # the emitter may have been split up (a shared helper yields the free parameters, a loop replaced the adaptor
+            # chain): on the MIR, does it - through functions and closures of the crate - walk Generics::type_params() /
+            # generics.params and look each parameter up in the `concrete` map?
+            from vlib import mirlib as M2
+            cands = [b for b in crate.bodies if b.kind in ("Fn", "AssocFn") and (b.path == qual or b.path.endswith("::" + qual.split("::")[-1]) and qual.split("::")[-1] in b.path)]
+            if len(cands) == 1:
+                cg = crate.callgraph(("TS",))
+                seen_p, todo = set(), [cands[0].path]
+                while todo:
+                    pth = todo.pop()
+                    if pth in seen_p or len(seen_p) > 40:
+                        continue
+                    seen_p.add(pth)
+                    for q in cg.get(pth, ()):
+                        if q.startswith(("DerivedTS::", "utils::", "generate_", "free_", "types::")) or "{closure" in q or q.count("::") == 0:
+                            todo.append(q)
+                reach = [b for b in crate.bodies if b.path in seen_p]
+                walks = any(M2.fn_matches(t, r"Generics::type_params$") or (M2.fn_matches(t, r"Punctuated::<T, P>::iter$") and "GenericParam" in (t.get("arg_tys") or [""])[0]) for b in reach for _, t in b.calls())
+                looks = any(M2.fn_matches(t, r"HashMap::<K, V, S(, A)?>::(contains_key|get)$") and "Ident" in (t.get("arg_tys") or [""])[0] for b in reach for _, t in b.calls())
+                hashed = any(re.search(r"Hash(Map|Set)<[^>]*(TypeParam|GenericParam)", l["ty"]) for b in reach for l in b.locals)
+                if walks and looks and not hashed:
+                    ok = True
+                    treat = "walks type_params() and consults `concrete` (confirmed on the MIR; written with helpers / loops)"
         r.inst(fn=qual, source=[S.squash(e["recv"]) + "." + e["method"] for e in src], treatment=treat, ok=ok)
         if not ok:
             r.fail(prop, "generic-emitter %s" % qual,
